@@ -68,7 +68,20 @@ def local_year(u, off):
 
 
 def ts_of(u, off):
-    return str((EPOCH + timedelta(microseconds=u)).astimezone(timezone(timedelta(seconds=off))))
+    """the timestamp as text, in one of the spellings exchanges use (chosen by the instant, so a case always renders the same way):
+    `2021-03-04 05:06:07+05:30`, the same with a colon-less offset `+0530`, or ISO 8601 with a `T`"""
+    dt = (EPOCH + timedelta(microseconds=u)).astimezone(timezone(timedelta(seconds=off)))
+    k = (u // 10**6) % 4
+    if k == 2:
+        return dt.strftime("%Y-%m-%d %H:%M:%S.%f%z" if dt.microsecond else "%Y-%m-%d %H:%M:%S%z")
+    if k == 3:
+        return dt.isoformat()
+    return str(dt)
+
+
+def uid_of(u):
+    """a transaction identifier derived from the second of the timestamp: rows of the same second share it, within and across tables"""
+    return "0x%x" % (u // 10**6 % 0xfffff)
 
 
 def ramt(rng):
@@ -195,6 +208,11 @@ def gen(rng, prop=None):
             ai = rng.choice(unused)
             base = us(datetime(2019, 6, 1, 12, tzinfo=timezone.utc) + timedelta(days=rng.choice(pool)))
             first, second = (base, 14 * 3600), (base + 3 * 3600 * 10**6, rng.choice([0, -12 * 3600]))
+            if rng.random() < 0.35:
+                # ... or a quarter of an hour apart, the first one in a half-hour zone and written with a colon-less offset (`+0530`):
+                # reading the offset's minutes wrongly moves it by half an hour and swaps the two
+                base += ((2 - (base // 10**6) % 4) % 4) * 10**6
+                first, second = (base, 5 * 3600 + 1800), (base + 900 * 10**6, 0)
             (ub, ob), (uo, oo) = (first, second) if rng.random() < 0.6 else (second, first)
             amt = ramt(rng)
             rows.append(["IN", 0, ub, ob, "BUY", ai, rprice(rng), amt, None, None, None])
@@ -252,11 +270,11 @@ def build_asset(cfg, a, rows):
     o2 = lambda v: dec(v) if v is not None else None
     for r in rows:
         if r[0] == "IN":
-            i.add_entry(InTransaction(cfg, ts_of(r[2], r[3]), a, *ACCTS[r[5]], r[4], dec(r[6]), dec(r[7]), fiat_fee=o2(r[8]), fiat_in_no_fee=o2(r[9]), fiat_in_with_fee=o2(r[10]), row=r[1]))
+            i.add_entry(InTransaction(cfg, ts_of(r[2], r[3]), a, *ACCTS[r[5]], r[4], dec(r[6]), dec(r[7]), fiat_fee=o2(r[8]), fiat_in_no_fee=o2(r[9]), fiat_in_with_fee=o2(r[10]), row=r[1], unique_id=uid_of(r[2])))
         elif r[0] == "OUT":
-            oo.add_entry(OutTransaction(cfg, ts_of(r[2], r[3]), a, *ACCTS[r[5]], r[4], dec(r[6]), dec(r[7]), dec(r[8]), crypto_out_with_fee=o2(r[9]), fiat_out_no_fee=o2(r[10]), fiat_fee=o2(r[11]), row=r[1]))
+            oo.add_entry(OutTransaction(cfg, ts_of(r[2], r[3]), a, *ACCTS[r[5]], r[4], dec(r[6]), dec(r[7]), dec(r[8]), crypto_out_with_fee=o2(r[9]), fiat_out_no_fee=o2(r[10]), fiat_fee=o2(r[11]), row=r[1], unique_id=uid_of(r[2])))
         else:
-            x.add_entry(IntraTransaction(cfg, ts_of(r[2], r[3]), a, *ACCTS[r[4]], *ACCTS[r[5]], dec(r[6]) if r[6] is not None else None, dec(r[7]), dec(r[8]), row=r[1]))
+            x.add_entry(IntraTransaction(cfg, ts_of(r[2], r[3]), a, *ACCTS[r[4]], *ACCTS[r[5]], dec(r[6]) if r[6] is not None else None, dec(r[7]), dec(r[8]), row=r[1], unique_id=uid_of(r[2])))
     return InputData(a, i, oo, x, cfg.from_date, cfg.to_date)
 
 
